@@ -120,3 +120,28 @@ def fea(rnd, ext):
     out.append("feature mark { lookup MKBASE; lookup MKLIG; } mark;")
     out.append("feature mkmk { lookup MKMK; } mkmk;")
     return "\n".join(out) + "\n"
+
+
+def varcolr():
+    """The repository's variable COLRv1 test family (Tests/varLib/data/TestVariableCOLR.designspace:
+    'wght' axis, colour glyphs with variable paints and a variable - format 2 - ClipBox) built
+    with varLib.  Deterministic (no random input)."""
+    import os
+    from fontTools import varLib
+    from fontTools.designspaceLib import DesignSpaceDocument
+    from fontTools.ttLib import TTFont
+    from vmon import env
+
+    path = os.path.join(env.TESTS, "varLib", "data", "TestVariableCOLR.designspace")
+    ds = DesignSpaceDocument.fromfile(path)
+    for source in ds.sources:
+        master = TTFont(recalcBBoxes=False, recalcTimestamp=False)
+        master.importXML(source.path)
+        buf = io.BytesIO()
+        master.save(buf, reorderTables=None)
+        buf.seek(0)
+        source.font = TTFont(buf)
+    vf, _, _ = varLib.build(ds)
+    buf = io.BytesIO()
+    vf.save(buf)
+    return buf.getvalue()
